@@ -1186,6 +1186,11 @@ fn adjacent_floats(c: &mut Case) {
     }
 }
 
+/// parameter builders keep every configured value whatever the order of the `with_*` steps
+fn builders_fam(c: &mut Case) {
+    scverif::builders::case(c, "C05")
+}
+
 fn main() {
     runner::main(Spec {
         property: "C05",
@@ -1199,6 +1204,7 @@ fn main() {
             "power-of-two check only when the scaling of the inputs is exact (always, for the generated magnitudes); one common factor 2^j, j in ±1..8",
         ],
         families: vec![
+            Family::new("builders", 300, 3000, builders_fam),
             Family::new("reg_mixed", 6000, 90000, reg_mixed),
             Family::new("reg_small_int", 3500, 52000, reg_small_int),
             Family::new("cls_mixed", 5000, 75000, cls_mixed),
